@@ -95,6 +95,8 @@ type Stream struct {
 	// Timeout settings (matches HTCondor's Stream timeout behavior)
 	timeout            time.Duration // Socket timeout duration (0 = no timeout)
 	cryptoBeforeSecret bool          // Saved encryption state before sending/receiving secret
+
+	verif verifState // verification hooks (empty unless built with -tags verif)
 }
 
 // CEDAR protocol constants based on HTCondor's reli_sock.cpp
@@ -269,6 +271,9 @@ func (s *Stream) sendMessageWithEnd(ctx context.Context, data []byte, end byte) 
 	}
 
 	// Send complete frame (header + data) in a single write
+	if verifOn {
+		s.verifEv("FrameSent", "end", int(end), "plen", len(data), "wlen", len(frame)-NormalHeaderSize, "wh", VerifFP(frame))
+	}
 	if err := s.writeWithContext(ctx, frame); err != nil {
 		return fmt.Errorf("failed to write frame: %w", err)
 	}
@@ -312,6 +317,10 @@ func (s *Stream) ReceiveFrame(ctx context.Context) ([]byte, error) {
 		if s.gcm != nil && s.encrypted {
 			return nil, fmt.Errorf("empty frame on encrypted stream")
 		}
+		if verifOn {
+			s.verifEv("FrameIn", "end", int(endFlag), "wlen", 0, "wh", VerifFP(header))
+			s.verifEv("FrameAccepted", "plen", 0)
+		}
 		return []byte{}, nil
 	}
 
@@ -321,6 +330,9 @@ func (s *Stream) ReceiveFrame(ctx context.Context) ([]byte, error) {
 		return nil, fmt.Errorf("failed to read message data: %w", err)
 	}
 
+	if verifOn {
+		s.verifEv("FrameIn", "end", int(endFlag), "wlen", len(messageData), "wh", VerifFP(append(append([]byte(nil), header...), messageData...)))
+	}
 	// Decrypt data if encryption is enabled using AAD
 	var clearData []byte
 	if s.gcm != nil && s.encrypted {
@@ -340,6 +352,9 @@ func (s *Stream) ReceiveFrame(ctx context.Context) ([]byte, error) {
 		s.recvDigestWritten = true
 	}
 
+	if verifOn {
+		s.verifEv("FrameAccepted", "plen", len(clearData))
+	}
 	return clearData, nil
 }
 
@@ -377,6 +392,10 @@ func (s *Stream) ReceiveFrameWithEnd(ctx context.Context) ([]byte, byte, error) 
 			s.recvDigest.Write(header)
 			s.recvDigestWritten = true
 		}
+		if verifOn {
+			s.verifEv("FrameIn", "end", int(endFlag), "wlen", 0, "wh", VerifFP(header))
+			s.verifEv("FrameAccepted", "plen", 0)
+		}
 		return []byte{}, endFlag, nil
 	}
 
@@ -386,6 +405,9 @@ func (s *Stream) ReceiveFrameWithEnd(ctx context.Context) ([]byte, byte, error) 
 		return nil, 0, fmt.Errorf("failed to read message data: %w", err)
 	}
 
+	if verifOn {
+		s.verifEv("FrameIn", "end", int(endFlag), "wlen", len(messageData), "wh", VerifFP(append(append([]byte(nil), header...), messageData...)))
+	}
 	// Decrypt data if encryption is enabled using AAD
 	var clearData []byte
 	if s.gcm != nil && len(messageData) > 0 {
@@ -405,6 +427,9 @@ func (s *Stream) ReceiveFrameWithEnd(ctx context.Context) ([]byte, byte, error) 
 		s.recvDigestWritten = true
 	}
 
+	if verifOn {
+		s.verifEv("FrameAccepted", "plen", len(clearData))
+	}
 	return clearData, endFlag, nil
 }
 
@@ -702,6 +727,9 @@ func (s *Stream) SetSymmetricKey(key []byte) error {
 
 	// Automatically enable encryption when key is set
 	s.encrypted = true
+	if verifOn {
+		s.verifEv("SetKey", "iv", VerifFP(s.encryptIV[:]))
+	}
 	return nil
 }
 
@@ -848,6 +876,9 @@ func (s *Stream) ExportCryptoState() ([]byte, error) {
 	writeVar(s.finalRecvDigest)
 	writeVar([]byte(s.peerAddr))
 
+	if verifOn {
+		s.verifEv("Exported")
+	}
 	return buf.Bytes(), nil
 }
 
@@ -958,6 +989,9 @@ func NewStreamWithCryptoState(conn net.Conn, blob []byte) (*Stream, error) {
 		s.peerAddr = string(peerAddrBytes)
 	}
 
+	if verifOn {
+		s.verifEv("Imported", "iv", VerifFP(s.encryptIV[:]), "riv", VerifFP(s.decryptIV[:]))
+	}
 	return s, nil
 }
 
